@@ -980,7 +980,7 @@ func lemmaCreateThenMapQueue(data []byte, cap uint32) {
 //@ pure mgrGeom(b *bufferManager): bool = len(b.lists) >= 1
 //@ |  && (forall i in [0, len(b.lists)) trig(b.lists[i]): b.lists[i] != nil && b.lists[i].bufferRegionOffsetInShm == b.lists[i].offsetInShm + 36 && b.lists[i].offsetInShm >= 0 && listEnd(b.lists[i]) < 4294967296)
 //@ |  && (forall i in [0, len(b.lists)) trig(b.lists[i]): forall j in [0, len(b.lists)) trig(b.lists[j]): i < j ==> listEnd(b.lists[i]) <= b.lists[j].offsetInShm)
-//@ pure ownedBy(l *bufferList, s *bufferSlice): bool = l.valid[slotOf(l, s)] && l.held[slotOf(l, s)] && 0 <= slotOf(l, s) && s.cap == *l.capPerBuffer
+//@ pure ownedBy(l *bufferList, s *bufferSlice): bool = l.valid[slotOf(l, s)] && l.held[slotOf(l, s)] && 0 <= slotOf(l, s) && slotOf(l, s) + l.gstride <= len(l.bufferRegion) && s.cap == *l.capPerBuffer
 //@ |  && s.bufferHeader != nil && sameMem(s.bufferHeader, l.bufferRegion, slotOf(l, s)) && len(s.bufferHeader) >= 20 && sameMem(s.data, l.bufferRegion, slotOf(l, s) + 20)
 //@ func (*bufferManager).recycleBuffer
 //@   nilable
@@ -989,6 +989,9 @@ func lemmaCreateThenMapQueue(data []byte, cap uint32) {
 //@   ensures[C01,C02] slice != nil && old(slice.isFromShm) ==> b.lists[old(slice.gowner)].n == old(b.lists[slice.gowner].n) + 1
 //@   ensures[C01,C02] slice != nil && old(slice.isFromShm) ==> b.lists[old(slice.gowner)].held == store(old(b.lists[slice.gowner].held), old(slotOf(b.lists[slice.gowner], slice)), false)
 //@   loop 0 invariant[C01,C02] -1 <= rangeindex && rangeindex < slice.gowner && slice.isFromShm
+//@   at call (*bufferList).push#0 hint[C01,C02] i < slice.gowner ==> listEnd(b.lists[i]) <= b.lists[slice.gowner].offsetInShm
+//@   at call (*bufferList).push#0 hint[C01,C02] slice.gowner < i ==> listEnd(b.lists[slice.gowner]) <= b.lists[i].offsetInShm
+//@   at call (*bufferList).push#0 hint[C01,C02] b.lists[i].bufferRegionOffsetInShm <= slice.offsetInShm && slice.offsetInShm < listEnd(b.lists[i]) && b.lists[slice.gowner].bufferRegionOffsetInShm <= slice.offsetInShm && slice.offsetInShm < listEnd(b.lists[slice.gowner])
 //@   at call (*bufferList).push#0 hint[C01,C02] i == slice.gowner
 //@   loop 0 modifies[C01,C02] nothing
 //@   modifies slice.isFromShm, slice.offsetInShm, slice.data, slice.bufferHeader, slice.cap, slice.writeIndex, slice.readIndex, slice.start, slice.nextSlice, all(M)
